@@ -135,7 +135,7 @@ def _prune(keep):
     base = os.path.join(CACHE, "facts")
     ents = [(os.path.getmtime(os.path.join(base, d)), d) for d in os.listdir(base)]
     ents.sort(reverse=True)
-    for _, d in ents[3:]:
+    for _, d in ents[8:]:
         if d != keep:
             shutil.rmtree(os.path.join(base, d), ignore_errors=True)
 
